@@ -182,4 +182,20 @@ fn reach() {
     kani::cover!(r.is_err() && rdy_out(S).is_err());
     kani::cover!(r.is_err() && fact_out(R).is_err());
     core::mem::forget(wk);
+}/// Clone: a clone is the same combinator over the same parts — `apply_cfg_factory_new_service` holds of it verbatim   [C11]
+#[kani::proof]
+fn apply_cfg_factory_new_service_on_clone() {
+    // (a closure, not the bare fn item: Kani 0.68 ICEs on a fn item that is stored but never called in a harness)
+    let orig = ApplyConfigServiceFactory::<_, u8, _, u16, OFactFut, Leaf> { srv: Rc::new((UnitLeafFactory { id: S }, |c: u16, s: &Leaf| cfg_fn(c, s))), _phantom: PhantomData };
+    let fac = orig.clone();          // everything below is asked of the CLONE
+    let c: u16 = kani::any();
+    let f = fac.new_service(c);
+    assert!(new_calls(S) == 1 && fact_polls(S) == 0 && cf_calls() == 0 && untouched(S));
+    assert!(f.cfg == Some(c));
+    match &f.state {
+        State::A { fut } => assert!(fut.id == S && !fut.done),
+        _ => kani::assert(false, "new_service must start in state A"),
+    }
 }
+
+
